@@ -71,3 +71,10 @@ Theorem empty_stage_copies : forall kind is_space inp cap, len inp <= cap -> 0 <
   run_stage kind [] is_space inp cap = SOk (len inp) inp (zrange 0 (len inp)) [].
 Proof. exact PassProofs.empty_stage_l. Qed.
 Print Assumptions empty_stage_copies.
+
+(* which literal orders the chains: the REGENERATED selection of passFindCharacters is the reference's (the first literal
+   that is longer than the look-back pending in front of it, counted from behind that look-back) *)
+Theorem chaining_literal_is_the_reference : forall count lookback,
+  passfind_takes count lookback = (count >? lookback) /\ passfind_length count lookback = count - lookback.
+Proof. exact PassProofs.passfind_is_the_reference_l. Qed.
+Print Assumptions chaining_literal_is_the_reference.
